@@ -82,6 +82,17 @@ theorem sound_test (hok : SemOk sem cf) (fuel : Nat) (c : PV.Src.Expr V) (truth 
   | zero => simp [PV.Src.evalExpr] at he
   | succ fuel =>
     have hE := (sound_expr sem env F P cf fsF hok fuel).1
+    have hE1 := (sound_expr sem env F P cf fsF hok (fuel + 1)).1
+    have hnot : ∀ (e : PV.Src.Expr V) (s1 : PV.Src.State V) (w : V), PV.Src.evalExpr sem env P (fuel + 1) [] st (.un "not" e) = (s1, .ok w) →
+        ∃ ve, PV.Src.evalExpr sem env P fuel [] st e = (s1, .ok ve) ∧ w = sem.alu "seqz" [ve] := by
+      intro e s1 w h
+      simp only [PV.Src.evalExpr] at h
+      split at h
+      · rename_i s2 ve hee
+        simp only [Prod.mk.injEq, Except.ok.injEq] at h
+        refine ⟨ve, by rw [hee, h.1], ?_⟩
+        rw [← h.2]; simp
+      · simp at h
     cases c with
     | bin op a b =>
       simp only [flatTest] at hf
@@ -119,7 +130,84 @@ theorem sound_test (hok : SemOk sem cf) (fuel : Nat) (c : PV.Src.Expr V) (truth 
                     exact (hok.cmp op c0 neg0 hcn hbp va vb).symm
                   · simp at he
                 · simp at he
+      · split at hf
+        · split at hf
+          · cases hf
+          · rename_i fsa ca oa ha
+            simp only [Option.some.injEq, Prod.mk.injEq] at hf
+            obtain ⟨e1, e2, e3, e4, e5⟩ := hf
+            subst e1 e2 e3 e4 e5
+            obtain ⟨e1, σ1, o1, v1, _⟩ := hE1 (.bin op a b) fs none fsa ca oa st st' v σ ha he hwf hF (by simp) hrel
+            refine ⟨e1, σ1, o1, ?_⟩
+            simp only [PV.Core.evalArgs, List.map_cons, List.map_nil]
+            rw [v1]; exact (hok.nez v).symm
+        · cases hf
+    | read q args =>
+      simp only [flatTest] at hf
+      split at hf
+      · split at hf
+        · cases hf
+        · rename_i fsa ca oa ha
+          simp only [Option.some.injEq, Prod.mk.injEq] at hf
+          obtain ⟨e1, e2, e3, e4, e5⟩ := hf
+          subst e1 e2 e3 e4 e5
+          obtain ⟨e1, σ1, o1, v1, _⟩ := hE1 (.read q args) fs none fsa ca oa st st' v σ ha he hwf hF (by simp) hrel
+          refine ⟨e1, σ1, o1, ?_⟩
+          simp only [PV.Core.evalArgs, List.map_cons, List.map_nil]
+          rw [v1]; exact (hok.nez v).symm
       · cases hf
+    | un op e =>
+      by_cases hop : op = "not"
+      · subst hop
+        obtain ⟨ve, hee, hv⟩ := hnot e st' v he
+        cases e with
+        | gvar x =>
+          simp only [flatTest] at hf
+          split at hf
+          · split at hf
+            · rename_i r hr
+              simp only [Option.some.injEq, Prod.mk.injEq] at hf
+              obtain ⟨e1, e2, e3, e4, e5⟩ := hf
+              subst e1 e2 e3 e4 e5
+              have hfe : flatE cf fs none (.gvar x) = some (fs, ([] : List (CStmt V)), Opnd.reg r) := by simp [flatE, hr]
+              obtain ⟨e1, σ1, o1, v1, _⟩ := hE (.gvar x) fs none fs [] (.reg r) st st' ve σ hfe hee hwf hF (by simp) hrel
+              refine ⟨e1, σ1, o1, ?_⟩
+              simp only [PV.Core.evalArgs, List.map_cons, List.map_nil]
+              rw [v1, hv]; exact (hok.eqz ve).symm
+            · cases hf
+          · cases hf
+        | read q args =>
+          simp only [flatTest] at hf
+          split at hf
+          · split at hf
+            · cases hf
+            · rename_i fsa ca oa ha
+              simp only [Option.some.injEq, Prod.mk.injEq] at hf
+              obtain ⟨e1, e2, e3, e4, e5⟩ := hf
+              subst e1 e2 e3 e4 e5
+              obtain ⟨e1, σ1, o1, v1, _⟩ := hE (.read q args) fs none fsa ca oa st st' ve σ ha hee hwf hF (by simp) hrel
+              refine ⟨e1, σ1, o1, ?_⟩
+              simp only [PV.Core.evalArgs, List.map_cons, List.map_nil]
+              rw [v1, hv]; exact (hok.eqz ve).symm
+          · cases hf
+        | bin op2 a b =>
+          simp only [flatTest] at hf
+          split at hf
+          · split at hf
+            · split at hf
+              · cases hf
+              · rename_i fsa ca oa ha
+                simp only [Option.some.injEq, Prod.mk.injEq] at hf
+                obtain ⟨e1, e2, e3, e4, e5⟩ := hf
+                subst e1 e2 e3 e4 e5
+                obtain ⟨e1, σ1, o1, v1, _⟩ := hE (.bin op2 a b) fs none fsa ca oa st st' ve σ ha hee hwf hF (by simp) hrel
+                refine ⟨e1, σ1, o1, ?_⟩
+                simp only [PV.Core.evalArgs, List.map_cons, List.map_nil]
+                rw [v1, hv]; exact (hok.eqz ve).symm
+            · cases hf
+          · cases hf
+        | _ => simp [flatTest] at hf
+      · simp [flatTest, hop] at hf
     | gvar x =>
       simp only [flatTest] at hf
       split at hf
